@@ -1,6 +1,7 @@
 import Np.Proofs.Expr
 import Np.Proofs.Shape
 import Np.Proofs.PowArr
+import Np.Proofs.ExprPow
 /-! C01 — ring arithmetic on polynomial arrays is exact: property theorems (helpers live in Np/Proofs). -/
 namespace Np.Props.C01
 open MvPolynomial Shape
@@ -123,6 +124,22 @@ theorem add_succeeds [CommRing R] [BEq R] (rc rn : Bool) (a b : Arr R) {s : List
         | some pb => simp [hpa, hpb] at h
     · exact h
 end broadcasting
+
+/-! ### programs that also use `**` with an array of exponents (`Expr2` / `evalModel2` is what the driver evaluates) -/
+section programs
+variable {R : Type} [CommRing R] [BEq R] [LawfulBEq R]
+
+/-- **every program** over `+ - neg pos * **k **array`: whenever the model evaluates it, the result is well-formed and
+agrees, shape and element by element, with the evaluation of the same program in `MvPolynomial Name R`, where `**`
+with an array raises each broadcast element to its own exponent -/
+theorem program_den (rc rn : Bool) (env : List (Arr R)) (henv : ∀ a ∈ env, a.WF) (t : Expr2) (r : Arr R)
+    (h : evalModel2 rc rn env t = .ok r) : r.WF ∧ ∃ sf, specEval2 env t = some sf ∧ Agrees r sf :=
+  expr2_den rc rn env henv t r h
+
+/-- the programs of `expr_den` are the programs without array exponents -/
+theorem program_embeds (rc rn : Bool) (env : List (Arr R)) (t : Expr) :
+    evalModel2 rc rn env t.embed = evalModel rc rn env t := evalModel2_embed rc rn env t
+end programs
 
 /-- non-vacuity: a = [[q0+1, q2]] (1×2, names q0,q2), b = [[q1],[q0·q1]] (2×1): the model evaluates (a+b)·b² to a
 2×2 array over q0,q1,q2 -/
